@@ -11,7 +11,7 @@ RULE = ('streams produced by the independent nondeterministic reference encoder 
         'ending exactly at the symbol boundary; one trailing ASCII codeword; EDIFACT unlatch in each of the four positions and the '
         '<= 2 trailing ASCII codewords rule; Base256 with 1-/2-byte length and running to the end of the symbol), Macro 05/06 and FNC1 '
         'prefixes, padding to a real symbol capacity; every stream is first validated by the independent decoder refdec.py; '
-        'non-trivial = stream with at least one non-ASCII run; plus constructed streams on the decoder\'s constants: Base256 fields of 0,1,2,248..252,499..501,750,1000,1500,1554,1555 bytes with explicit length or running to the end, between ASCII runs; and the end-of-symbol forms (EDIFACT groups with one or two codewords left, C40/Text/X12 triples with one codeword left) with EVERY ASCII character, digit-pair and pad codeword as the tail')
+        'non-trivial = stream with at least one non-ASCII run; long streams of one kind (lengths around 16, 64, 256, 1024; to 1500 thorough) with one character of another kind at the power-of-two offsets; plus constructed streams on the decoder\'s constants: Base256 fields of 0,1,2,248..252,499..501,750,1000,1500,1554,1555 bytes with explicit length or running to the end, between ASCII runs; and the end-of-symbol forms (EDIFACT groups with one or two codewords left, C40/Text/X12 triples with one codeword left) with EVERY ASCII character, digit-pair and pad codeword as the tail')
 THEOREMS = 'C04_scripts, C04_macro05, C04_macro06, C04_fnc1, C04_randomisers, C04_c40_tables'
 ASSUMPTIONS = ['refenc.py / refdec.py are independent readings of ISO/IEC 16022 5.2 (each stream is accepted by both before use)']
 
@@ -39,7 +39,35 @@ def gen_cases(rng, tier, ctx):
                    'expect': exp, 'nonascii': any(m != 'Ascii' for m, _, _ in script)})
     cs += constant_streams(rng, tier)
     cs += tail_streams(rng, tier)
+    cs += uniform_long_streams(rng, tier, caps)
     return cs
+
+
+def uniform_long_streams(rng, tier, caps):
+    """long streams of one kind (ASCII letters, digit pairs, one Base256 field, C40 / Text / X12 / EDIFACT runs) whose lengths lie
+    around the powers of two, with one character of another kind at the start, the end, a power-of-two offset or anywhere:
+    the inputs on which a block-wise or table-driven fast path of the decoder would differ from the per-codeword reading"""
+    out = []
+    lens = [15, 16, 17, 63, 64, 65, 255, 256, 257, 1023, 1024, 1025] if tier == 'quick' else \
+        [15, 16, 17, 31, 32, 33, 63, 64, 65, 127, 128, 129, 255, 256, 257, 511, 512, 513, 767, 1023, 1024, 1025, 1300, 1500]
+    odd = [0, 10, 31, 32, 48, 57, 65, 97, 127, 128, 159, 160, 200, 255]
+    for kind, modes in (('c40', 1), ('digits', 1), ('high', 32), ('c40', 2), ('text', 4), ('x12', 8), ('edifact', 16), ('c40', 63)):
+        for L in lens:
+            base = [rng.choice(gen.ALPH[kind]) for _ in range(L)]
+            variants = [base]
+            for posn in (0, L - 1, 15, 16, 63, 64, 255, 256, 1023, 1024, rng.below(L)):
+                if posn < L and (tier != 'quick' or rng.chance(1, 4)):
+                    v = list(base)
+                    v[posn] = rng.choice(odd)
+                    variants.append(v)
+            for v in variants:
+                r = refenc.random_stream(rng, v, caps, modes if modes in (1, 32, 63) else modes | 1, None)
+                if r is None:
+                    continue
+                cw, cap, script = r
+                out.append({'line': 'decode_data %s' % fmt_list(cw), 'cat': 'uniform-long-' + kind, 'expect': list(v),
+                            'nonascii': any(m != 'Ascii' for m, _, _ in script)})
+    return out
 
 
 def constant_streams(rng, tier):
